@@ -125,6 +125,49 @@ theorem gopher_error_line (admin : Str) (head : Bool) (m : Str) :
     `Parsed` value exists (no exception can leave the parser) -/
 theorem parse_total (w q : Str) (nv : Bool) (p : Proto) (c : Conn) : ∃ r, parseRequest w q nv p c = r := ⟨_, rfl⟩
 
+/-! ### end to end (`Model/Serve`): request line → response pieces, for every file tree -/
+
+/-- **A selector nothing serves gets each protocol's own not-found answer, and nothing else.**
+    Gopher: one type-3 line; Gopher+: `--2` and two lines; Gemini `51`, Spartan `4` status line
+    with no body; HTTP 404 / WAP error page. -/
+theorem not_found_end_to_end (c : ServeCfg) (st : StatFn) (rq : Parsed) (m : Str) (g : Str)
+    (hh : handled c st rq.selector = .notFound m) (hi : rq.geminiInput = none) (hb : rq.badRequest = false)
+    (hg : rq.gplus = some g) :
+    respondParsed c st .gopher rq = some [.text ([51] ++ m ++ lit "\t\terror.host\t1\r\n")] ∧
+    respondParsed c st .gopherp rq = some [.text (lit "--2\r\n1 " ++ c.render.admin ++ [13, 10] ++ m ++ [13, 10])] ∧
+    respondParsed c st .gemini rq = some [.text (statusLine (lit "51") m)] ∧
+    respondParsed c st .spartan rq = some [.text (statusLine (lit "4") m)] := by
+  refine ⟨by simp [respondParsed, hh, hi, hb, Wire.ofProto], ?_, by simp [respondParsed, hh, hi, hb, Wire.ofProto],
+    by simp [respondParsed, hh, hi, hb, Wire.ofProto]⟩
+  by_cases hx : (g == lit "!") = true <;> simp [respondParsed, hh, hi, hb, Wire.ofProto, hg, hx]
+
+/-- **Every Gemini and Spartan answer starts with one status line** (and the line is a single
+    line whatever the selector contained: `statusLine_single_line`). -/
+theorem status_line_first (c : ServeCfg) (st : StatFn) (rq : Parsed) (ps : List Piece) (p : Proto)
+    (hp : p = .gemini ∨ p = .spartan) (h : respondParsed c st p rq = some ps) :
+    ∃ code mt tail rest, ps = .text (statusLine code mt ++ tail) :: rest ∧
+      (code = lit "51" ∨ code = lit "20" ∨ code = lit "4" ∨ code = lit "2") := by
+  unfold respondParsed at h
+  split at h
+  · cases h
+  · rcases hp with hp | hp <;> subst hp <;> simp only [Wire.ofProto] at h
+    · cases hh : handled c st rq.selector with
+      | notFound m => simp only [hh, Option.some.injEq] at h; exact ⟨lit "51", m, [], [], by rw [← h]; simp, Or.inl rfl⟩
+      | crash => simp [hh] at h
+      | document e d => simp only [hh, Option.some.injEq] at h; exact ⟨lit "20", geminiAdjust e.mimetype, [], [.bytes d], by rw [← h]; simp, Or.inr (Or.inl rfl)⟩
+      | menu self es =>
+        simp only [hh] at h
+        obtain ⟨r, _, hr⟩ := Option.map_eq_some_iff.mp h
+        exact ⟨lit "20", lit "text/gemini", r ++ footerText c.geminiFooter, [], by rw [← hr]; simp [List.append_assoc], Or.inr (Or.inl rfl)⟩
+    · cases hh : handled c st rq.selector with
+      | notFound m => simp only [hh, Option.some.injEq] at h; exact ⟨lit "4", m, [], [], by rw [← h]; simp, Or.inr (Or.inr (Or.inl rfl))⟩
+      | crash => simp [hh] at h
+      | document e d => simp only [hh, Option.some.injEq] at h; exact ⟨lit "2", geminiAdjust e.mimetype, [], [.bytes d], by rw [← h]; simp, Or.inr (Or.inr (Or.inr rfl))⟩
+      | menu self es =>
+        simp only [hh] at h
+        obtain ⟨r, _, hr⟩ := Option.map_eq_some_iff.mp h
+        exact ⟨lit "2", lit "text/gemini", r ++ footerText c.spartanFooter, [], by rw [← hr]; simp [List.append_assoc], Or.inr (Or.inr (Or.inr rfl))⟩
+
 /-- and so is the framing: one response for every outcome -/
 theorem one_response (w : Wire) (admin : Str) (head : Bool) (o : HOutcome) :
     ∃ r, respond w admin head o = r ∧ ∀ r', respond w admin head o = r' → r' = r :=
